@@ -113,6 +113,10 @@ type Conn struct {
 	// file descriptor.
 	fd int
 
+	// generation tag carried by the epoll events of this connection,
+	// tells them from the events of an earlier owner of the same fd.
+	gen int32
+
 	connUDP *udpConn
 
 	// used for read deadline.
